@@ -45,8 +45,34 @@ THEOREMS = [
     "Ural.Props.C06.fp_lang_label_string_partial",
     "Ural.Props.C06.fp_gl_hl_string",
     "Ural.Props.C06.fp_shape_whole",
+    # "everything normalize_url ignores": fp(T u) = fp(u) on strings for C04's family (Props/C06Fp.lean, via
+    # Props/C04Lower.lean: C04's theorems for both values of `lowercase`, on the tuple, at fpOpts)
+    "Ural.Props.C04.normalizeUrlSplit_partsG",
+    "Ural.Props.C06.fp_string_of_partsG",
+    "Ural.Props.C06.fp_scheme_string",
+    "Ural.Props.C06.fp_userinfo_string",
+    "Ural.Props.C06.fp_irrelevant_label_string",
+    "Ural.Props.C06.fp_trailing_slash_string",
+    "Ural.Props.C06.fp_index_string",
+    "Ural.Props.C06.fp_fragment_string",
+    "Ural.Props.C06.fp_tracking_item_string",
+    "Ural.Props.C06.fp_tracking_item_first_string",
+    "Ural.Props.C06.fp_tracking_item_alone_string",
+    "Ural.Props.C06.fp_query_permutation_string",
+    "Ural.Props.C06.fp_amp_semicolon_string_partial",
+    "Ural.Props.C06.fp_escape_spelling_string",
+    "Ural.Props.C06.fp_escape_case_string",
+    "Ural.Props.C06.fp_clean_string",
+    "Ural.Props.C06.fp_surrounding_ws_string",
+    "Ural.Props.C06.fp_suffix_swap_string_partial",
+    # the shape clause on the printed string (Props/C06Shape.lean)
+    "Ural.Props.C06.fpString_host_then_tail",
+    "Ural.Props.C06.fpString_hostless",
+    "Ural.Props.C06.bracket_safe",
+    "Ural.Props.C06.fingerprinted_host_safe",
+    "Ural.Props.C06.fp_printed_whole",
 ]
-EXTRA_IMPORTS = ["UralModel.Props.C06Whole"]
+EXTRA_IMPORTS = ["UralModel.Props.C06Whole", "UralModel.Props.C06Fp", "UralModel.Props.C06Shape"]
 TABLE_OBLIGATIONS = [
     "Ural.Props.C06.langQueryKeys_has",
     "Ural.Props.C06.lang_keys_in_no_combo",
@@ -98,7 +124,8 @@ TRUSTED = [
     "attempt_to_decode_idna is a parameter (puny), arbitrary in every theorem; the platform_aware branch is an abstract string "
     "rewriting before parsing (theorems on Parsed hold after it; the commutation of T with it is checked by the oracle only)",
     "str.lower / str.upper beyond ASCII are the identity in the model (generators avoid the other characters for the model lines; "
-    "the oracle runs on everything)",
+    "the oracle runs on everything): the case theorems are about ASCII case; the country-code test of the model is the ASCII one "
+    "(the code's Unicode str.upper differs on dotless i / long s: KF-C06-5, patch prepared)",
 ]
 ASSUMPTIONS = [
     "AccLaws E.netlocAcc (proved for pyNetlocAcc), WalkLaws E.walkHost (proved for pyWalkHost), CcLaws E.isCC (proved for the "
@@ -106,17 +133,40 @@ ASSUMPTIONS = [
     "HostSafe: the host normalize_url leaves has none of '@', '[', ']' (CPython's hostname never has; puny is arbitrary so it is stated)",
 ]
 UNPROVED = (
+    "WHICH THEOREM CARRIES WHICH CLAUSE. 'Ignores everything normalize_url ignores': fp_factor / fp_of_norm_eq / fp_of_normParts_eq only "
+    "unfold the definition (hypothesis = equality of the very normalize_url call: lemmas); the clause is carried by Props/C06Fp.lean: for every "
+    "transformation T of C04's family, fingerprintUrlString(T u) = fingerprintUrlString(u) (tuple and string, both strip_suffix, any "
+    "suffix trie, any idna decoder) - fp_scheme_string, fp_userinfo_string, fp_irrelevant_label_string, fp_trailing_slash_string, "
+    "fp_index_string, fp_fragment_string, fp_tracking_item_string / _first_ / _alone_, fp_query_permutation_string, "
+    "fp_amp_semicolon_string_partial (same exclusion as C04: not in front of an item starting with 'amp;'), fp_escape_spelling_string, "
+    "fp_escape_case_string (an escaped capital: '/%41', '/%61', '/a' - D25 / e39f899), fp_clean_string / fp_surrounding_ws_string "
+    "(every string that parses, any platform rewriting); default port and host case are fp_port_string and fp_case_string - for every "
+    "pair u, u' such that the cleaned, resolved forms of u.lower() and u'.lower() are g.str and (T g).str in the grammar class "
+    "NormBridge.UrlG.wf, platform_aware off. They instantiate at fpOpts (lowercase := true) the theorems of Props/C04Lower.lean, which "
+    "re-prove C04's path / query / fragment theorems for BOTH values of `lowercase` (hypotheses read on the unescaped, case-folded text). "
+    "NOT covered: the leading 'amp-' (C04.norm_amp_dash_string is stated for normalize_url; not instantiated here), C04's readings. "
+    "'Letter case': fp_case_insensitive / fp_case_flip / fp_case_string are congruences on `lower url` where `lower` is the model's "
+    "ASCII str.lower: they prove that ASCII case flips anywhere are ignored; a non-ASCII case pair (e-acute / E-acute, Kelvin sign / k) "
+    "is outside the model alphabet - exercised by the oracle on the real code (C03's HostCase laws describe what Python's lower does to hosts). "
     "fp_lang_label_partial: side conditions hamp (rest starts with 'amp-'), hsingle (rest starts with a second language label), hdf "
-    "(per-domain filter chosen alike) - each excluded region really differs (witness examples, fullLangLabel_fails). "
+    "(per-domain filter chosen alike) - each excluded region really differs (witness examples, fullLangLabel_fails). The country-code "
+    "test of the model is `code.upper() in ISO` with the ASCII upper: the REAL test uses Python's str.upper, which also maps dotless i "
+    "and long s to I and S - KF-C06-5 (a non-code label is stripped; patch notes/fixes/c06-country-code-ascii-letters.diff); with the patch "
+    "the code's test is the model's on every string (CcLaws.alpha, strip_lang_iff, fp_lang_not_stripped describe the patched code; the "
+    "affected labels are outside the model alphabet, so no model line sees the difference). "
     "fp_suffix_swap_partial: the suffix is judged after the language label is stripped and hdf - excluded regions really differ "
-    "(KF-C06-2, KF-C06-3, fullSuffixSwap_fails). Port / label / item / suffix theorems of Props/C06.lean are about Parsed records; "
-    "Props/C06Whole.lean states case (every string), port, language label (partial, same side conditions), gl/hl and the shape "
-    "clause on STRINGS for the whole-string model fingerprintUrlString with the modelled parser, for every u such that the "
-    "cleaned, resolved form of u.lower() is in the grammar class NormBridge.UrlG.wf (host name or bracketed IP literal); the "
-    "suffix swap stays component-level. That the modelled parser is CPython's is compared on every run, not proved; under platform_aware=True the commutation of T with "
-    "the facebook/youtube rewriting is explored by the oracle, not proved (KF-C06-4: it reads the string before unescaping). Escaped capitals: since e39f899 normalize_url(lowercase="
-    "True) folds the case right after unescaping; the equation fp('/%41') = fp('/a') is covered by the oracle (C04 family) and by "
-    "fp_lower_closed (result closed under lower), not by a general theorem."
+    "(KF-C06-2, KF-C06-3, fullSuffixSwap_fails); on STRINGS: fp_suffix_swap_string_partial (same side conditions, plain hosts). Port / label / "
+    "item / suffix theorems of Props/C06.lean are about Parsed records; "
+    "Props/C06Whole.lean / C06Fp.lean state case (every string), port, language label (partial, same side conditions), gl/hl, suffix swap "
+    "and C04's family on STRINGS for the whole-string model fingerprintUrlString with the modelled parser, for every u such that the "
+    "cleaned, resolved form of u.lower() is in the grammar class NormBridge.UrlG.wf (host name or bracketed IP literal). "
+    "'Never carries a scheme, userinfo or port' on the PRINTED string (Props/C06Shape.lean): fp_printed_whole - on the class, the string "
+    "is the netloc `bracket H` (H free of '@', '[', ']': no userinfo; either no ':' at all or the IP literal [H]: no port) immediately "
+    "followed by the end, '/', '?' or '#'; under strip_suffix=True for plain language-stripped hosts (hypothesis hpl). Hostless result "
+    "(fpString_hostless): the string is path?query#fragment, empty or starting with '/', '?', '#', UNDER the hypothesis that the result's "
+    "path is empty or starts with exactly one slash (decidable on the result; that normalize_url's path has this shape is not derived). "
+    "That the modelled parser is CPython's is compared on every run, not proved; under platform_aware=True the commutation of T with "
+    "the facebook/youtube rewriting is explored by the oracle, not proved (KF-C06-4: it reads the string before unescaping)."
 )
 
 # ---------------------------------------------------------------------------------------
@@ -696,9 +746,17 @@ def kf_lang_vs_suffix(case, failure):
 
 
 def kf_unicode_upper_code(case, failure):
-    """negative half: a two-letter (or xx-yy) label that is not a country code - it holds dotless i / long s - is stripped
-    because the code asks `label.upper() in ISO_3166_1_COUNTRIES_ALPHA_2` with the Unicode str.upper()"""
-    return case["T"][0] == "label" and upper_only_code(case["T"][1]) and "(not a country code) was stripped" in failure
+    """a two-letter (or xx-yy) label that is not a country code - it holds dotless i / long s - is stripped because the code asks
+    `label.upper() in ISO_3166_1_COUNTRIES_ALPHA_2` with the Unicode str.upper(). Seen (a) in the negative half, when T prepends
+    such a label; (b) in the positive half / suffix swap on a BASE whose own first label (as normalize_url leaves it) is such a
+    label: the base loses it, T(u) shields it behind the real code (or the other suffix leaves one label less)"""
+    k = case["T"][0]
+    if k == "label" and upper_only_code(case["T"][1]) and "(not a country code) was stripped" in failure:
+        return True
+    if k in ("label", "swap") and " but for T(u) = " in failure:
+        nu = nhost(case["u"], case["pa"])
+        return bool(nu) and upper_only_code(nu.split(".")[0])
+    return False
 
 
 # ---------------------------------------------------------------------------------------
